@@ -299,6 +299,13 @@ func main() {
 	tSolve := time.Now()
 	results := solveAll(sel, work, *jobs, to, *tier == "thorough")
 	solveWall := time.Since(tSolve).Seconds()
+	if os.Getenv("GOVC_SLOWVC") != "" {
+		for _, r := range results {
+			if r.TimeS > 2 && r.Obl.Expect == "unsat" {
+				fmt.Printf("slow-vc %.2fs %s path=%d %s %s\n", r.TimeS, r.Obl.Name, r.Obl.PathID, r.Status, strings.Join(r.Tried, " "))
+			}
+		}
+	}
 	// group by name
 	byName := map[string][]*SolveResult{}
 	for _, r := range results {
